@@ -1,5 +1,6 @@
 import SemverProofs.Props.C02
 import SemverProofs.Lemmas.Locality
+import SemverProofs.Lemmas.NpmParse
 /-!
 # C02, text level — the text `a || b`
 
@@ -144,5 +145,174 @@ theorem empty_fails : ∀ r, Range.parse [] ≠ .ok r := by
 example : ∃ r, Range.parse ['1'] = .ok r ∧ Range.parse (orText ['1'] []) = .ok r := by
   obtain ⟨r, hr⟩ := one_parses
   exact ⟨r, hr, C02_or_text_left_only _ _ r hr empty_fails⟩
+
+end Semver.C02
+
+/-! ## the text `a b` (comparator lists)
+
+For comparator lists `a`, `b` written in the npm range grammar (`Spec.Npm.SimplesText`: primitives,
+partials / X-ranges, tildes, carets, garbage tokens, in all their loose spellings; no hyphen form)
+the text `a b` is the comparator list of `a` followed by that of `b` (`simplesText_append`), the
+parser reads each of the three texts as the fold of its comparators' intervals
+(`parse_simples`), and `C02_and` applies.
+-/
+namespace Semver.C02
+open Semver Pred Bound Spec Spec.Npm
+
+theorem simplesText_append {la lb : List Simple} {ta tb b : List Char} (ha : SimplesText la ta) (hane : la ≠ [])
+    (hb : Blanks1 b) (hlb : SimplesText lb tb) (hbne : lb ≠ []) :
+    SimplesText (la ++ lb) (ta ++ (b ++ tb)) := by
+  induction ha with
+  | nil => exact absurd rfl hane
+  | one hs => exact .cons hs hb hlb hbne
+  | @cons s t b' l T hs hb' hl hlne ih =>
+    have := ih hlne
+    have e : t ++ (b' ++ T) ++ (b ++ tb) = t ++ (b' ++ (T ++ (b ++ tb))) := by simp
+    rw [e]
+    exact .cons hs hb' this (by simp [hlne])
+
+/-- the valid comparators of a comparator list, as intervals -/
+def setsOf (l : List Simple) : List BoundSet := (l.map evalSimple).filterMap id
+
+theorem foldSets_filter (l : List (Option BoundSet)) : foldSets l = foldSets ((l.filterMap id).map some) := by
+  unfold foldSets
+  congr 1
+  simp [List.filterMap_map]
+
+theorem setsOf_append (la lb : List Simple) : setsOf (la ++ lb) = setsOf la ++ setsOf lb := by
+  simp [setsOf, List.filterMap_append]
+
+theorem evalSimple_wf {s : Simple} {x : BoundSet} (h : evalSimple s = some x) : x.WF := by
+  cases s with
+  | prim op p => exact primitiveSet_wf h
+  | bare p => exact partialSet_wf h
+  | tilde p => exact tildeSet_wf h
+  | caret p => exact caretSet_wf h
+  | garbage t => cases h
+
+theorem setsOf_wf (l : List Simple) : ∀ x ∈ setsOf l, x.WF := by
+  intro x hx
+  simp only [setsOf, List.mem_filterMap, List.mem_map, id] at hx
+  obtain ⟨o, ⟨s, _, rfl⟩, ho⟩ := hx
+  exact evalSimple_wf ho
+
+/-- **what `Range::parse` makes of a comparator list**: the fold of its valid comparators -/
+theorem parse_simples {l : List Simple} {t : List Char} (h : SimplesText l t) :
+    altsOf t = foldSets ((setsOf l).map some) := by
+  have hs : AstText [.simples l] t := ⟨[], t, [], by simp, rfl, rfl, .one (.simples h)⟩
+  unfold altsOf
+  rw [boundSets_text hs]
+  simp only [evalAst, List.flatMap_cons, List.flatMap_nil, List.append_nil, evalAlt]
+  exact foldSets_filter _
+
+/-- a version satisfies the text (a text that does not parse is satisfied by nothing) -/
+def satText (t : List Char) (v : Version) : Prop := ∃ s ∈ altsOf t, s.satisfies v = true
+/-- a version lies within the bounds of the text -/
+def withinText (t : List Char) (v : Version) : Prop := ∃ s ∈ altsOf t, s.within v = true
+
+theorem satText_iff_parse (t : List Char) (v : Version) :
+    satText t v ↔ ∃ R, Range.parse t = .ok R ∧ Range.satisfies R v = true := by
+  constructor
+  · rintro ⟨s, hs, hv⟩
+    refine ⟨altsOf t, parse_ok_iff.mpr ⟨rfl, ?_⟩, ?_⟩
+    · intro h0; rw [h0] at hs; cases hs
+    · rw [Range.satisfies_iff]; exact ⟨s, hs, hv⟩
+  · rintro ⟨R, hR, hv⟩
+    obtain ⟨rfl, _⟩ := parse_ok_iff.mp hR
+    rw [Range.satisfies_iff] at hv
+    exact hv
+
+theorem withinText_iff {l : List Simple} {t : List Char} (h : SimplesText l t) (hne : setsOf l ≠ []) (v : Version) :
+    withinText t v ↔ allWithin (setsOf l) v := by
+  unfold withinText
+  rw [parse_simples h]
+  rcases C02_fold_sem (setsOf l) (setsOf_wf l) hne with ⟨r, hr, _, hsem⟩ | ⟨hr, hsem⟩
+  · rw [hr]
+    simp only [List.mem_singleton, exists_eq_left]
+    exact (hsem v).1
+  · rw [hr]
+    simp only [List.not_mem_nil, false_and, exists_false, false_iff]
+    exact hsem v
+
+theorem satText_eq_foldSat {l : List Simple} {t : List Char} (h : SimplesText l t) (v : Version) :
+    satText t v ↔ foldSat (foldSets ((setsOf l).map some)) v := by
+  unfold satText foldSat
+  rw [parse_simples h]
+
+/-- **C02_and_text**: for comparator lists `a`, `b` of the grammar, each with at least one valid
+comparator, and any blanks `sp` between them: a release version satisfies the text `a b` exactly
+when it satisfies both; a prerelease version exactly when it lies within the bounds of both and
+satisfies at least one -/
+theorem C02_and_text {la lb : List Simple} {ta tb sp : List Char} (ha : SimplesText la ta) (hb : SimplesText lb tb)
+    (hsp : Blanks1 sp) (hane : setsOf la ≠ []) (hbne : setsOf lb ≠ []) (v : Version) :
+    (v.isPre = false → (satText (ta ++ (sp ++ tb)) v ↔ (satText ta v ∧ satText tb v))) ∧
+    (v.isPre = true → (satText (ta ++ (sp ++ tb)) v ↔
+      (withinText ta v ∧ withinText tb v ∧ (satText ta v ∨ satText tb v)))) := by
+  have hla : la ≠ [] := by intro h; subst h; exact hane rfl
+  have hlb : lb ≠ [] := by intro h; subst h; exact hbne rfl
+  have hab := simplesText_append ha hla hsp hb hlb
+  rw [satText_eq_foldSat hab, satText_eq_foldSat ha, satText_eq_foldSat hb, withinText_iff ha hane,
+    withinText_iff hb hbne, setsOf_append]
+  exact C02_and (setsOf la) (setsOf lb) (setsOf_wf la) (setsOf_wf lb) hane hbne v
+
+/-- … and it never widens to a union: `a b` parses to at most one interval, and whatever satisfies
+it lies within the bounds of both sides — so when nothing lies within both, `a b` either fails to
+parse or parses to a range no version satisfies -/
+theorem C02_and_text_never_union {la lb : List Simple} {ta tb sp : List Char} (ha : SimplesText la ta)
+    (hb : SimplesText lb tb) (hsp : Blanks1 sp) (hane : setsOf la ≠ []) (hbne : setsOf lb ≠ []) :
+    (altsOf (ta ++ (sp ++ tb))).length ≤ 1 ∧
+    (∀ v, satText (ta ++ (sp ++ tb)) v → withinText ta v ∧ withinText tb v) := by
+  have hla : la ≠ [] := by intro h; subst h; exact hane rfl
+  have hlb : lb ≠ [] := by intro h; subst h; exact hbne rfl
+  have hab := simplesText_append ha hla hsp hb hlb
+  constructor
+  · rw [parse_simples hab]; exact C02_never_union _
+  · intro v hv
+    have hne : setsOf (la ++ lb) ≠ [] := by rw [setsOf_append]; simp [hane]
+    have hw : withinText (ta ++ (sp ++ tb)) v := by
+      obtain ⟨s, hs, hsat⟩ := hv
+      exact ⟨s, hs, ((satisfies_iff s v).mp hsat).1⟩
+    rw [withinText_iff hab hne, setsOf_append] at hw
+    rw [withinText_iff ha hane, withinText_iff hb hbne]
+    exact ⟨fun s hs => hw s (by simp [hs]), fun s hs => hw s (by simp [hs])⟩
+
+/-- a side without any valid comparator (garbage only) does not matter -/
+theorem C02_and_text_garbage_left {la lb : List Simple} {ta tb sp : List Char} (ha : SimplesText la ta)
+    (hb : SimplesText lb tb) (hsp : Blanks1 sp) (hla : la ≠ []) (hlb : lb ≠ []) (hg : setsOf la = []) :
+    altsOf (ta ++ (sp ++ tb)) = altsOf tb := by
+  rw [parse_simples (simplesText_append ha hla hsp hb hlb), parse_simples hb, setsOf_append, hg]
+  rfl
+
+theorem C02_and_text_garbage_right {la lb : List Simple} {ta tb sp : List Char} (ha : SimplesText la ta)
+    (hb : SimplesText lb tb) (hsp : Blanks1 sp) (hla : la ≠ []) (hlb : lb ≠ []) (hg : setsOf lb = []) :
+    altsOf (ta ++ (sp ++ tb)) = altsOf ta := by
+  rw [parse_simples (simplesText_append ha hla hsp hb hlb), parse_simples ha, setsOf_append, hg, List.append_nil]
+
+/-- the order of the two comparator lists does not matter -/
+theorem C02_and_text_comm {la lb : List Simple} {ta tb sp sp' : List Char} (ha : SimplesText la ta)
+    (hb : SimplesText lb tb) (hsp : Blanks1 sp) (hsp' : Blanks1 sp') (hane : setsOf la ≠ []) (hbne : setsOf lb ≠ [])
+    (v : Version) : satText (ta ++ (sp ++ tb)) v ↔ satText (tb ++ (sp' ++ ta)) v := by
+  have hla : la ≠ [] := by intro h; subst h; exact hane rfl
+  have hlb : lb ≠ [] := by intro h; subst h; exact hbne rfl
+  rw [satText_eq_foldSat (simplesText_append ha hla hsp hb hlb),
+    satText_eq_foldSat (simplesText_append hb hlb hsp' ha hla), setsOf_append, setsOf_append]
+  have hwf : ∀ s ∈ setsOf la ++ setsOf lb, s.WF := by
+    intro s hs; rw [List.mem_append] at hs
+    rcases hs with h | h
+    · exact setsOf_wf la s h
+    · exact setsOf_wf lb s h
+  exact C02_comm _ _ List.perm_append_comm hwf (by simp [hane]) v
+
+/-! non-vacuity: `>=1` and `~2.x`, joined by two blanks -/
+example : ∃ (la lb : List Simple) (ta tb : List Char), SimplesText la ta ∧ SimplesText lb tb ∧
+    setsOf la ≠ [] ∧ setsOf lb ≠ [] ∧ ta ++ ([' ', ' '] ++ tb) = ">=1  ~2.x".toList := by
+  refine ⟨[.prim .ge (.maj 1)], [.tilde (.maj 2)], ">=1".toList, "~2.x".toList, ?_, ?_, ?_, ?_, by decide⟩
+  · exact .one (.prim (op := .ge) (gap := []) (by decide) (Or.inl (.one (.num numText_one))))
+  · exact .one (.tilde (gap := []) (by decide)
+      (Or.inl (.two (A := ['2']) (B := ['x']) (.num ⟨by decide, by decide, by decide, by decide⟩) (.wild (Or.inl rfl)))))
+  · intro h; have : (setsOf [.prim .ge (.maj 1)]).isEmpty = true := by rw [h]; rfl
+    revert this; decide
+  · intro h; have : (setsOf [.tilde (.maj 2)]).isEmpty = true := by rw [h]; rfl
+    revert this; decide
 
 end Semver.C02
